@@ -65,6 +65,7 @@ _OOO_NAMESPACES = {
     "xsi": "http://www.w3.org/2001/XMLSchema-instance",
 }
 _NUMBER_COLUMNS_REPEATED = "{" + _OOO_NAMESPACES["table"] + "}number-columns-repeated"
+_NUMBER_ROWS_REPEATED = "{" + _OOO_NAMESPACES["table"] + "}number-rows-repeated"
 _TEXT_C = "{" + _OOO_NAMESPACES["text"] + "}c"
 _TEXT_LINE_BREAK = "{" + _OOO_NAMESPACES["text"] + "}line-break"
 _TEXT_S = "{" + _OOO_NAMESPACES["text"] + "}s"
@@ -308,8 +309,9 @@ def ods_rows(source_ods_path, sheet=1):
             )
             row.extend([cell_value] * cell_repeated_count)
             location.advance_cell(cell_repeated_count)
-        yield row
-        location.advance_line()
+        for _ in range(repeated_count(table_row, _NUMBER_ROWS_REPEATED, "table:number-rows-repeated")):
+            yield list(row)
+            location.advance_line()
 
 
 def fixed_rows(fixed_source, encoding, field_name_and_lengths, line_delimiter="any"):
